@@ -146,7 +146,10 @@ fn gen_stream(run_seed: u64, tier: Tier) -> Stream {
     // usually carries bytes of the next request as well
     if rng.chance(1, 8) {
         knobs.item_limit = 1024 * 1024;
-        let len = *rng.pick(&[4073u32, 4100, 5000, 8192, 9000, 66_000]);
+        // (among them the lengths that make the whole frame end exactly at, one before and one
+        // after the 4096th byte of the stream's frame)
+        let exact = 4096u32.saturating_sub(32 + keys[0].len() as u32);
+        let len = *rng.pick(&[exact, exact - 1, exact + 1, 4073u32, 4100, 5000, 8192, 9000, 66_000]);
         let mut r = SymReq::store(*rng.pick(&[op::SET, op::SET, op::ADD, op::APPEND, op::SETQ]), &keys[0], Val::Pattern { seed: rng.next() as u32, len }, 3, 0, CasSel::Zero);
         ctr += 1;
         r.opaque = hi | ctr;
